@@ -1,0 +1,29 @@
+//go:build verif && !windows
+
+package localfs
+
+import (
+	"io/fs"
+	"syscall"
+	"time"
+)
+
+// verifInfo is a synthetic os.FileInfo carrying only (dev, ino).
+type verifInfo struct{ st syscall.Stat_t }
+
+func (v *verifInfo) Name() string       { return "verif" }
+func (v *verifInfo) Size() int64        { return 0 }
+func (v *verifInfo) Mode() fs.FileMode  { return 0 }
+func (v *verifInfo) ModTime() time.Time { return time.Time{} }
+func (v *verifInfo) IsDir() bool        { return false }
+func (v *verifInfo) Sys() any           { return &v.st }
+
+// VerifQIDPath evaluates the (device, inode) to QID path mapping on an
+// arbitrary pair (build tag "verif" only).
+func VerifQIDPath(dev, ino uint64) uint64 {
+	v := &verifInfo{}
+	v.st.Dev = dev
+	v.st.Ino = ino
+	q, _ := localToQid("", v)
+	return q
+}
